@@ -2,6 +2,7 @@ CONSTANTS
   VNeg = 2
   VMax = 3
   MaxLen = 5
+  MaxIdle = 5
   AllowKF = TRUE
   Classes = {"BoolHigh", "BoolLow", "Floor", "Ceil", "WhenOutsideBand", "OutBand", "WhenChanged"}
 SPECIFICATION Spec
